@@ -650,7 +650,8 @@ impl PlutusList {
         let mut dedup = BTreeSet::new();
         let mut datas = Vec::new();
         for elem in &self.elems {
-            if dedup.insert(elem) {
+            // a datum is identified by the bytes it is emitted (and hashed) with
+            if dedup.insert(elem.to_bytes()) {
                 datas.push(elem);
             }
         }
@@ -667,7 +668,7 @@ impl PlutusList {
         let mut dedup = BTreeSet::new();
         let mut elems = Vec::new();
         for elem in &self.elems {
-            if dedup.insert(elem) {
+            if dedup.insert(elem.to_bytes()) {
                 elems.push(elem.clone());
             }
         }
